@@ -43,7 +43,22 @@ NEEDS.update({
  "d19": "interleaving: Bind onto a node whose subnet is not cached (restart/reload between filter and bind) concurrent with Filter of another pod",
  "d20": "input: multi-address range with exactly one end inside the pool subnet",
 })
-OTHER = {'b02': ['C03', 'C05'], 'a04': ['C10'], 'd02': ['C06'], 'd09': ['C05', 'C06']}
+
+NEEDS.update({
+ "e01": "topology + restart: pool whose gateway is numerically above some of its IPs, IP of a live pod, then restart/reload, then another pod scheduled",
+ "e03": "multi-step: immutable deployment, one IP parked on the app prefix, then scale down and a second pod retired (event or resync)",
+ "e04": "interleaving (4 actors): old pod's unbind holds the pod lock, API release accepted while the pod cache lacks the replacement, cache sync, replacement's Bind queues before Release on the lock",
+ "e05": "fault: API error on the update inside ReserveIP (memory already changed)",
+ "e06": "same source change as d08 (cache synced per created object; rollback leaves memory behind); stated against C06 but needs an API fault, which C06 does not quantify over",
+ "e07": "input: Pool object with size 0 (treated as 'no pool'), then pods scheduled; Bind allocates unchecked",
+ "e09": "ordering: labelled FloatingIP exists in the store but its watch event has not arrived (create tolerates AlreadyExists)",
+ "e10": "fault outside C10's quantifier: API error on UpdateAttr between AssignIP and the record of the node, pod deleted before the retry",
+ "e12": "fault: two or more plugin DELs fail in one DEL, then the retry (order of the retried plugins)",
+ "e14": "state: full sync while the KUBE-HP chain of a kept pod already exists with different rules",
+ "e16": "input: one rule listing the same port number for TCP and UDP",
+ "e19": "interleaving: CloseHostports of a pod without host ports concurrent with OpenHostports/CloseHostports of a pod with one",
+})
+OTHER = {'b02': ['C03', 'C05'], 'a04': ['C10'], 'd02': ['C06'], 'd09': ['C05', 'C06'], 'e06': ['C08', 'C05'], 'e01': ['C09', 'C05'], 'e10': ['C04'], 'e04': ['C01']}
 only = sys.argv[1:]
 for sid, (prop, pkg) in SEEDS.items():
     if only and sid not in only: continue
